@@ -639,6 +639,79 @@ pub fn run(rep: &mut Report, thorough: bool) {
             &mut rep.sink,
         );
         rep.stage("reply-typed-cuts", "7 reply-typed messages (portmapper DUMP replies with null / AUTH_SHORT / AUTH_SYS-flavoured verifiers, SMB1 / SMB2 with the reply flag, a 276-byte STUN success response) whole and cut at every offset on a TCP connection: no segment answered with data", plan.len() as u64, t0);
+        // the same reply-typed messages as FIRST data of a connection, right after a sibling
+        // connection between the same two addresses (neighbouring port pairs: source port 39999..40001
+        // x destination port 80 / 336 / 592, every ordered pair, per IP version; and the second
+        // handled address) completed a genuine request of that protocol: what one connection parsed
+        // is nothing another connection's message is judged by
+        let t0 = std::time::Instant::now();
+        let grid: Vec<(u16, u16)> = [39999u16, 40000, 40001].iter().flat_map(|s| [80u16, 336, 592].iter().map(move |d| (*s, *d))).collect();
+        let mut pairs: Vec<(Flow, Flow)> = Vec::new();
+        for v6 in [false, true] {
+            for a in &grid {
+                for b in &grid {
+                    if a != b {
+                        pairs.push((flow(v6, a.0, a.1), flow(v6, b.0, b.1)));
+                    }
+                }
+            }
+            let fa = flow(v6, 40000, 80);
+            let mut fb = fa.clone();
+            fb.sip = if v6 { srv6b() } else { srv4b() };
+            pairs.push((fa.clone(), fb.clone()));
+            pairs.push((fb, fa));
+        }
+        let all: Vec<Flow> = pairs.iter().flat_map(|p| [p.0.clone(), p.1.clone()]).collect();
+        let ck = learn_cookies(&cfg, &all).unwrap_or_default();
+        let genuine = |name: &str| -> Vec<u8> {
+            if name.starts_with("rpc") {
+                apprpc::with_record_mark(&apprpc::build_call(0x72fe1d13, 2, 100000, 2, 4, &[], &[]))
+            } else if name.starts_with("smb1") {
+                appsmb::smb1_negotiate(&Smb1Hdr::new(0x72), &["NT LM 0.12"])
+            } else if name.starts_with("smb2") {
+                appsmb::smb2_negotiate(&Smb2Hdr::new(0), &[0x0202, 0x0311], &[5; 16])
+            } else {
+                stun_magic(&stun_attr(0x8022, &[b'x'; 256]), &ID12)
+            }
+        };
+        let dims = [pairs.len() as u64, streams.len() as u64];
+        let opts = RunOpts::new("reply-typed-after-sibling-request").stateful().chunk(64).no_monitor();
+        let cfgc = cfg.clone();
+        engine::run(
+            &cfg,
+            engine::product(&dims),
+            &opts,
+            |i| {
+                let d = engine::unrank(i, &dims);
+                let (fa, fb) = &pairs[d[0] as usize];
+                let ca = ck.get(&key_of(fa)).copied().unwrap_or(0).wrapping_add(1);
+                let cb = ck.get(&key_of(fb)).copied().unwrap_or(0).wrapping_add(1);
+                vec![Cmd::Frame(fa.tcp(1000, ca, F_PSH | F_ACK, &genuine(&streams[d[1] as usize].0))), Cmd::Frame(fb.tcp(1000, cb, F_PSH | F_ACK, &streams[d[1] as usize].1))]
+            },
+            |it: &Item, sk: &mut Sink| {
+                sk.count("frames", 2);
+                let d = engine::unrank(it.idx, &dims);
+                let (fa, fb) = &pairs[d[0] as usize];
+                let first = it.outs[1].reply.as_deref().and_then(crate::mask::app_payload).map(|(_, p)| p).unwrap_or_default();
+                if first.is_empty() {
+                    sk.count("sibling_request_unanswered", 1);
+                }
+                let data = it.outs[2].reply.as_deref().and_then(crate::mask::app_payload).map(|(_, p)| p).unwrap_or_default();
+                if !data.is_empty() {
+                    sk.violation(Violation {
+                        prop: "C12".into(),
+                        key: format!("reply-typed-answered:after-sibling:{}", streams[d[1] as usize].0.split('-').next().unwrap_or("")),
+                        what: format!("reply-typed message '{}' as first data of the connection {}:{} > {}:{} is answered with {} after the connection {}:{} > {}:{} carried a genuine request", streams[d[1] as usize].0, fb.cip, fb.cport, fb.sip, fb.sport, hex(&data[..data.len().min(40)]), fa.cip, fa.cport, fa.sip, fa.sport),
+                        cfg: cfgc.clone(),
+                        cmds: it.cmds.to_vec(),
+                        idx: it.idx,
+                        stage: "reply-typed-after-sibling-request".into(),
+                    });
+                }
+            },
+            &mut rep.sink,
+        );
+        rep.stage("reply-typed-after-sibling-request", "7 reply-typed messages as first data of connection B right after connection A completed a genuine request of that protocol, A and B between the same two addresses with neighbouring port pairs (144 ordered pairs of a 3 x 3 port grid per IP version) or to the two handled addresses: B not answered with data", engine::product(&dims), t0);
     }
     rep.states = rep.sink.classes.len() as u64;
 }
